@@ -213,6 +213,14 @@ MacParse(cs) ==
                ELSE IF sep = "-" /\ \E i \in 1..6 : Len(fs[i]) # 2 THEN Grey
                ELSE Ok([i \in 1..6 |-> HexValue(fs[i])])
           ELSE IF seps = {"."} THEN Grey       \* xxxx.xxxx.xxxx dialect
+          ELSE IF seps = {":", "-"} THEN       \* a minus sign inside colon-separated groups: "-0" is 0 for int()
+            LET fs == Split(cs, ":")
+            IN IF Len(fs) = 6 /\ \A i \in 1..6 :
+                    /\ fs[i] # <<>>
+                    /\ IF fs[i][1] = "-"
+                       THEN Len(fs[i]) > 1 /\ AllIn(Tail(fs[i]), {"0"})       \* only "minus zero"
+                       ELSE AllIn(fs[i], HexSet)
+               THEN Grey ELSE Rej
           ELSE Rej
 
 -----------------------------------------------------------------------------
